@@ -180,7 +180,7 @@ TABLE['C04']['modules'].append('contracts.regen')
 TABLE['C04']['modules'].append('contracts.dirnames')
 
 TABLE['C19'] = {
-    'modules': ['contracts.scripts'],
+    'modules': ['contracts.scripts', 'contracts.naming'],
     'level': 'other',
     'explanation': 'partial: (proof) add_user_argument registers exactly the names and their --x- aliases and rejects reserved/malformed names, for all name strings; (syntactic proof on the AST) the globals handed to exec() are a fresh two-key dict display; (bounded, real classes) both spellings parse to the same value for plain/enable/with arguments, and push_path keeps the path stack balanced on normal and exceptional exit; (bounded, real configure_build on generated script trees: chains to depth 4, ../ references, a sibling included twice, a directory name with a blank; build and options contexts) every submodule() call runs the callee script of the kind of the caller, exports reach exactly the caller, no variable leaks, input paths are relative to the source directory of the script, output paths of copy_file/object_file/executable/static_library to the matching build directory (build_step: known finding), nested project arguments carry the configured values.',
     'assumptions': ['argparse dispatches option strings as documented', 'Python exec() with an explicit globals dict does not share names between calls'],
